@@ -753,15 +753,15 @@ def run(ctx):
     ctx.notes["exhaustive_over_k_for_every_scenario"] = True
     # 2. multithreaded scenarios again (the allocation order there depends on the thread schedule)
     mt = [(n, h) for n, h in scens if n.startswith(("mt_", "mt2_", "mt3_", "copy2_mt", "thr_mt_", "thr_threadpool", "train_opt")) and not (ctx.quick and h)]
-    for rep in range(2 if ctx.quick else 15):
+    for rep in range(2 if ctx.quick else 12):
         b.process([["sweep", n] for n, h in mt], "mt%d" % rep, timeout_s=40 if ctx.quick else 90, wall=900, tie=False)
     core.log("C13: + MT repeats: %.1fs" % (time.time() - t0))
     # 2a. more random histories: the rand_* scenarios again with other sequence seeds (every k each)
     rnd = [(n, h) for n, h in scens if n.startswith(("rand_", "randx_"))]
-    for i in range(1 if ctx.quick else 25):
+    for i in range(1 if ctx.quick else 15):
         RSEED[0] = ctx.seed * 1000 + 1 + i
         b.process([["sweep", n] for n, h in rnd], "rand%d" % i, timeout_s=40 if ctx.quick else 90, wall=900, tie=False)
-    ctx.notes["random_histories"] = len(rnd) * (1 + (1 if ctx.quick else 25))
+    ctx.notes["random_histories"] = len(rnd) * (1 + (1 if ctx.quick else 15))
     RSEED[0] = ctx.seed
     core.log("C13: + random histories: %.1fs" % (time.time() - t0))
     # 2b. debug build (-DDEBUGLEVEL=1): every mutex / condition is one more libc allocation of the library (threading.c) and the
